@@ -1,5 +1,6 @@
+(* GENERATED from ElfProofs.v by tools/mk_be.py (big-endian copy) - do not edit; edit ElfProofs.v and re-run the script. *)
 From Coq Require Import List NArith ZArith Arith Lia Bool.
-From MDW Require Import Bytes Elf.
+From MDW Require Import Bytes ElfBE.
 Import ListNotations.
 Open Scope N_scope.
 
